@@ -194,6 +194,9 @@ func (c *Conversation) notifyDataMessageError(err error) {
 	var e ErrorCode
 
 	if err == errMessageNotInPrivate {
+		// the user has been told; the peer has to be told too - that is what
+		// lets it start a new key exchange (error start policy)
+		c.generatePotentialErrorMessage(ErrorCodeMessageNotInPrivate)
 		return
 	}
 
